@@ -16,6 +16,7 @@ import (
 )
 
 var c11Pkgs = []c12Pkg{
+	{"TestC11Faults", nil},
 	{"TestC13", []string{"VERIF_SCALE=0.15"}},
 	{"TestC14", []string{"VERIF_SCALE=0.15"}},
 	{"TestC15", []string{"VERIF_SCALE=0.25"}},
